@@ -162,6 +162,15 @@ fn vc18_probation_same_source() { probation_step(Some(sa(B))) }
 #[kani::stub(std::sync::Weak::upgrade, weak_upgrade_seq)]
 fn vc18_probation_other_source() { probation_step(Some(sa(C))) }
 
+// @h name=vc18_probation_incumbent_wins tier=quick timeout=1800
+// @fn IceConn::receive (lifted body)
+// @bound as vc18_probation_first_packet with one existing candidate at the CURRENT destination A (symbolic counters); the packet comes from B
+// @oracle as vc18_probation_first_packet; in particular when the timeout rule elects the incumbent A (more packets, or equal packets and lower first sequence number) the committed destination is A, not the address of the last packet
+#[kani::proof]
+#[kani::unwind(4)]
+#[kani::stub(std::sync::Weak::upgrade, weak_upgrade_seq)]
+fn vc18_probation_incumbent_wins() { probation_step(Some(sa(A))) }
+
 // @h name=vc18_control_ops tier=quick timeout=900
 // @fn IceConn::reset_latch, IceConn::set_remote_addr_from_signaling, IceConn::set_remote_addr_from_selected_pair, IceConn::set_remote_rtcp_addr, IceConn::enable_latch_on_rtp
 // @bound latched on A (probation setting symbolic 0..8); one control operation (symbolic choice) with address B
@@ -187,4 +196,79 @@ fn vc18_control_ops() {
     }
     kani::cover!(op == 1 && max > 0);
     leak(c);
+}
+
+/// two packets from concrete sources S1, S2 right after the public enable call (probation 1..2)
+fn two_packets(s1: SocketAddr, s2: SocketAddr) {
+    let max: u8 = kani::any(); kani::assume(max >= 1 && max <= 2);
+    let (tx, rx) = watch::channel(None);
+    leak(tx);
+    let c = IceConn::verif_on_stack(rx.clone(), rx, sa(A), None, Some(max));
+    let exp: u32 = kani::any();
+    c.set_expected_ssrc(exp);
+    c.enable_latch_on_rtp();
+    let srcs = [s1, s2];
+    let mut legit: u8 = 0;
+    let mut k = 0;
+    while k < 2 {
+        let src = srcs[k];
+        let p = rtp_class_packet();
+        let ok = !is_rtcp(&p) && (exp == 0 || ssrc_of(&p) == exp);
+        let before = *c.remote_addr.read(); let latched_before = c.rtp_latched.load(Ordering::Relaxed);
+        let mut mb = Vec::new();
+        c.verif_receive(Bytes::copy_from_slice(&p), src, &mut mb);
+        let after = *c.remote_addr.read(); let latched_after = c.rtp_latched.load(Ordering::Relaxed);
+        if latched_before { assert!(after == before && latched_after, "a committed latch moved"); }
+        else if !ok { assert!(after == before && !latched_after, "RTCP / wrong-SSRC traffic influenced the latch"); }
+        else {
+            legit += 1;
+            assert!(after == s1 || (k == 1 && after == s2), "destination moved to an address no legitimate RTP came from");
+            if legit >= max { assert!(latched_after, "latch not committed after the configured number of probation packets"); }
+        }
+        k += 1;
+    }
+    kani::cover!(legit == 2 && max == 2, "full probation window used");
+    kani::cover!(legit == 0, "only ignored traffic");
+    leak(c);
+}
+
+// @h name=vc18_two_packets_bc tier=experimental timeout=1500
+// @fn IceConn::enable_latch_on_rtp, IceConn::set_expected_ssrc, IceConn::receive (lifted body)
+// @bound fresh connection to A, probation 1..2 (symbolic), latching enabled through the public calls; two packets, the first from B and the second from C, each with 12 symbolic header bytes of the RTP/RTCP class; symbolic expected SSRC
+// @oracle at every step: a committed latch never moves again; the destination only changes to the source of a legitimate RTP packet; RTCP / wrong-SSRC packets change nothing; after `max` legitimate RTP packets the latch is committed (never later)
+#[kani::proof]
+#[kani::unwind(4)]
+#[kani::stub(std::sync::Weak::upgrade, weak_upgrade_seq)]
+fn vc18_two_packets_bc() { two_packets(sa(B), sa(C)) }
+
+// @h name=vc18_two_packets_bb tier=experimental timeout=1500
+// @fn IceConn::enable_latch_on_rtp, IceConn::receive (lifted body)
+// @bound as vc18_two_packets_bc with both packets from B
+// @oracle as vc18_two_packets_bc
+#[kani::proof]
+#[kani::unwind(4)]
+#[kani::stub(std::sync::Weak::upgrade, weak_upgrade_seq)]
+fn vc18_two_packets_bb() { two_packets(sa(B), sa(B)) }
+
+// @h name=vc18_reset_mid_probation tier=quick timeout=900
+// @fn IceConn::reset_latch, IceConn::set_remote_addr_from_signaling
+// @bound probation 1..8 still undecided with one observed candidate (symbolic counters) and symbolic packets-so-far; then signaling resets the latch (reset_latch, or retarget to B: symbolic choice)
+// @oracle the probation window restarts from scratch: no candidate and no packet count survive the reset, the configured window length is kept, nothing is latched (stale pre-reset sources must not take part in the next decision; seeded change C18-B)
+#[kani::proof]
+#[kani::unwind(4)]
+fn vc18_reset_mid_probation() {
+    let max: u8 = kani::any(); kani::assume(max >= 1 && max <= 8);
+    let c = conn_at(sa(A), max);
+    let mut cands = Vec::with_capacity(3);
+    cands.push(any_cand(sa(C)));
+    let total: u8 = kani::any(); kani::assume(total >= 1 && total < max);
+    *c.probation.lock() = Some(RtpProbationState { candidates: cands, total_packets: total, max_packets: max });
+    let retarget: bool = kani::any();
+    if retarget { c.set_remote_addr_from_signaling(sa(B), "verif"); } else { c.reset_latch(); }
+    assert!(!c.rtp_latched.load(Ordering::Relaxed) && !c.rtcp_latched.load(Ordering::Relaxed));
+    assert!(*c.remote_addr.read() == if retarget { sa(B) } else { sa(A) });
+    let g = c.probation.lock();
+    match g.as_ref() { Some(s) => assert!(s.candidates.is_empty() && s.total_packets == 0 && s.max_packets == max, "stale probation state survived a latch reset"), None => assert!(false, "probation not re-armed after reset") }
+    kani::cover!(retarget && max == 6, "retarget with the default window");
+    drop(g); leak(c);
 }
